@@ -131,10 +131,39 @@ Theorem C04_join_driver_programs : forall cfgs msgs rounds fuel order ops n,
   check_C04_join n (trace_of (run_dops rounds fuel order (init cfgs msgs) ops)) = true.
 Proof. exact join_sound_dops. Qed.
 
+(* the "at least once" half, for SETTLED worlds (no actor waiting between handlers has a pending
+   signal or supervision event; implied by: polling any actor changes nothing): a child that was
+   started and has ended (join handle completed or task aborted) has had a terminal event handled
+   by its supervisor, provided the supervisor is alive and idle at the end of the trace *)
+Theorem C04_complete_sound_settled : forall cfgs msgs ls,
+  settled (run (init cfgs msgs) ls) ->
+  check_C04_complete (map c_link cfgs) (trace_of (run (init cfgs msgs) ls)) = true.
+Proof. exact complete_sound. Qed.
+
+Theorem C04_complete_sound_quiescent : forall cfgs msgs ls,
+  (forall i fuel, poll fuel (run (init cfgs msgs) ls) i = run (init cfgs msgs) ls) ->
+  check_C04_complete (map c_link cfgs) (trace_of (run (init cfgs msgs) ls)) = true.
+Proof. exact complete_sound_quiescent. Qed.
+
+(* without "settled" the statement is false of the model (the event is still queued): the oracle
+   must only be applied to traces that end in a settle *)
+Definition cr_cfgs : list cfg :=
+  [mkCfg ([], ROk) ([], ROk) ([], ROk) (SupScript ([], ROk)) None false;
+   mkCfg ([], ROk) ([], ROk) ([], ROk) SupDefault (Some 0) false].
+Definition cr_ls : list label :=
+  [LSpawn 0; LPoll 0 20; LPoll 0 20; LSpawn 1; LPoll 1 20; LPoll 1 20; LPoll 0 20; LKill 1; LPoll 1 20].
+Example C04_complete_unsettled_refuted :
+  check_C04_complete (map c_link cr_cfgs) (trace_of (run (init cr_cfgs []) cr_ls)) = false
+  /\ check_C04_complete (map c_link cr_cfgs) (trace_of (run (init cr_cfgs []) (cr_ls ++ [LPoll 0 20]))) = true.
+Proof. vm_compute. split; reflexivity. Qed.
+
 Check (C04_terminal_first_sound : forall cfgs msgs ls,
   check_C04_terminal_first (map c_link cfgs) (trace_of (run (init cfgs msgs) ls)) = true).
 Check (C04_join_sound : forall cfgs msgs ls n,
   check_C04_join n (trace_of (run (init cfgs msgs) ls)) = true).
+Check (C04_complete_sound_settled : forall cfgs msgs ls,
+  settled (run (init cfgs msgs) ls) ->
+  check_C04_complete (map c_link cfgs) (trace_of (run (init cfgs msgs) ls)) = true).
 
 Check (C04_oracle_sound : forall cfgs msgs ls,
   check_C04 (map c_link cfgs) (map c_local cfgs) (trace_of (run (init cfgs msgs) ls)) = true).
@@ -259,3 +288,5 @@ Print Assumptions C04_terminal_first_sound.
 Print Assumptions C04_terminal_first_driver_programs.
 Print Assumptions C04_join_sound.
 Print Assumptions C04_join_driver_programs.
+Print Assumptions C04_complete_sound_settled.
+Print Assumptions C04_complete_sound_quiescent.
